@@ -2,6 +2,7 @@ import SC.Properties.C04
 import SC.Properties.C09
 import SC.Proofs.RIndex
 import SC.Proofs.RCountByte
+import SC.Proofs.RLastIndex
 /-!
 # C07 — strcase and bytcase are the same function on the same bytes
 
@@ -46,6 +47,10 @@ theorem index_parity (cfg : A.Cfg) (s sub : Bytes) (r : Int) :
 theorem count_cut_parity (cfg : A.Cfg) (s sub : Bytes) :
     A.Count (str cfg) s sub = A.Count (byt cfg) s sub ∧ A.Cut (str cfg) s sub = A.Cut (byt cfg) s sub := by
   simp only [A.Count_eq, A.Cut_eq, and_self]
+
+/-- LastIndex: both packages refine the same specification (the pinned tree differed here: finding D7) -/
+theorem lastIndex_parity (cfg : A.Cfg) (s sub : Bytes) : A.LastIndex (str cfg) s sub = A.LastIndex (byt cfg) s sub := by
+  rw [A.LastIndex_eq, A.LastIndex_eq]
 
 example : A.Compare (str {}) [0xFF, 0x41] [0xEF, 0xBF, 0xBD, 0x61] = 0 := by decide +kernel
 end C07
